@@ -32,10 +32,14 @@ def gen_trace(seed, world, tier, mode=None):
     kind = R.choice(KINDS)
     hi = 6 if tier == "quick" else 8
     m, n = R.randint(1, hi), R.randint(1, hi)
-    if kind in ("rsp_colvar", "hybrid", "cgne", "cgne_prec") and m < n:
+    # a few requests in the wrong orientation: the documented answer is a loud rejection
+    # (judged by C20); if a solver answers instead, its flag must be sound for that input too
+    wrong = R.random() < 0.06
+    if kind in ("rsp_colvar", "hybrid", "cgne", "cgne_prec") and (m < n) != wrong:
         m, n = n, m
-    if kind == "rsp_rowvar" and m > n:
+    if kind == "rsp_rowvar" and (m > n) != wrong:
         m, n = n, m
+    wrong = wrong and m != n
     k = min(m, n)
     cond = 10.0 ** R.choice([0, 1, 1, 2, 3])
     A = {"gen": "psvd", "m": m, "n": n, "seed": R.randrange(10 ** 6),
@@ -43,6 +47,12 @@ def gen_trace(seed, world, tier, mode=None):
     tol = 10.0 ** -R.choice([3, 4, 5, 6, 7, 8])
     budget = R.choice([5, 50, 50, 400]) if tier == "quick" else R.choice([5, 50, 400, 1000])
     cfg_seed = R.choice([None, None, R.randrange(1000)])
+    # swarm: some runs are "quiet" (seeded constructor, compute straight away, test sketch as
+    # wide as the projection sketch) - the schedule in which two consumers of the shared
+    # stream are most likely to see the same numbers
+    quiet = kind.startswith("rsp") and R.random() < 0.3
+    if quiet:
+        cfg_seed = R.randrange(1000)
     steps = []
     if cfg_seed is None or R.random() < 0.3:
         steps.append({"k": "rng", "op": "seed", "v": R.randrange(10 ** 6)})
@@ -52,8 +62,13 @@ def gen_trace(seed, world, tier, mode=None):
         block = R.randint(1, k)
         if kind == "rsp_compute" and R.random() < 0.25:
             block = k + R.randint(1, 10)   # clamp path of compute()
+        tss = R.choice([8, 8, 8, 3, 12])
+        if R.random() < 0.2 or quiet:
+            if quiet and k >= 2:
+                block = R.randint(1, k - 1)
+            tss = block          # coincidence knob: test sketch as wide as the projection sketch
         cfg = {"block_size": block, "max_iter": budget, "tol": tol,
-               "test_sketch_size": R.choice([8, 8, 8, 3, 12]), "column_solver": R.choice(["qr", "spd"])}
+               "test_sketch_size": tss, "column_solver": R.choice(["qr", "spd"])}
         cls = "solver.RandomizedSketchProjectPseudoinverse"
         meth = {"rsp_compute": "compute", "rsp_colvar": "compute_column_variant",
                 "rsp_rowvar": "compute_row_variant"}[kind]
@@ -68,7 +83,7 @@ def gen_trace(seed, world, tier, mode=None):
     if cfg_seed is not None:
         cfg["seed"] = cfg_seed
     call = {"k": "call", "obj": "s0", "meth": meth, "args": [A],
-            "tags": {"kind": kind, "m": m, "n": n, "cond": cond}}
+            "tags": {"kind": kind, "m": m, "n": n, "cond": cond, "wrong_orientation": wrong}}
     x = R.random() if mode is None else {"plain": 0.1, "clock": 0.55, "spd": 0.65, "jitter": 0.75, "sweep": 0.9}[mode]
     if x < 0.45:
         pass
@@ -87,7 +102,7 @@ def gen_trace(seed, world, tier, mode=None):
                       "pick_seed": R.randrange(10 ** 6)})
         return {"prop": PROP, "seed": seed, "world": world, "mode": "sweep", "steps": steps}
     steps.append({"k": "new", "obj": "s0", "cls": cls, "cfg": cfg})
-    if R.random() < 0.3:   # a foreign client between construction and compute
+    if not quiet and R.random() < 0.3:   # a foreign client between construction and compute
         steps.append({"k": "rng", "op": R.choice(["draw", "seed"]), "n": R.randint(1, 100),
                       "v": R.randrange(10 ** 6), "client": 1})
     steps.append(call)
@@ -145,6 +160,9 @@ class Hooks(BaseHooks):
             if hard:
                 self.cnt["raised_under_fault"] += 1
                 return
+            if tags.get("wrong_orientation"):
+                self.cnt["wrong_orientation_rejected"] = self.cnt.get("wrong_orientation_rejected", 0) + 1
+                return
             viol.append(V("raised", i, f"{kind} raised {rec.get('exc')}: {rec.get('exc_msg')} on a full-rank "
                                        f"{m}x{n} input (cond {mt['cond']:.3g})"))
             return
@@ -158,7 +176,7 @@ class Hooks(BaseHooks):
         if not is_qmat(X, (n, m)):
             viol.append(V("shape", i, f"X has shape {getattr(X, 'shape', None)}, expected {(n, m)}"))
             return
-        col = (m >= n) if kind == "rsp_compute" else (kind != "rsp_rowvar")
+        col = (m >= n) if (kind == "rsp_compute" or tags.get("wrong_orientation")) else (kind != "rsp_rowvar")
         d = n if col else m
         conv = bool(info.get("converged"))
         rn = info.get("residual_norms")
@@ -189,7 +207,15 @@ class Hooks(BaseHooks):
                 viol.append(V("truth", i, f"iterations = {info['iterations']} but {len(rn)} residuals"))
         else:
             s = cfg.get("test_sketch_size", 8) if kind.startswith("rsp") else min(6, n)
-            if len(draws) >= 4 and all(dr.shape == (d, s) for dr in draws[:4]):
+            if tags.get("wrong_orientation"):
+                # answered although out of domain: no documented proxy; demand the plain statement
+                K = 1.0
+                if conv and true > 10.0 * tol + 1e-13 * mt["cond"]:
+                    viol.append(V("sound_flag", i,
+                                  f"{kind} answered a {m}x{n} input in the wrong orientation with converged=True but "
+                                  f"||{'XA' if col else 'AX'} - I||_F/sqrt({d}) = {true:.3e} (tol {tol:g})"))
+                    K = None
+            elif len(draws) >= 4 and all(dr.shape == (d, s) for dr in draws[:4]):
                 Pi = qalg.from_comps(np.stack(draws[:4], axis=-1))
                 nPi = qalg.fro(Pi)
                 proxy = qalg.fro(qalg.mm(E, Pi)) / nPi
